@@ -50,6 +50,12 @@ type runner struct {
 	pairs     map[uint64]map[common.Hash]bool // (state id, root) pairs that were ever on the flattened chain
 	parentOf  map[common.Hash]common.Hash     // root -> parent root of the accepted Update that created its layer
 	maxIDEver uint64
+	recovers  []recoverRec // every Recover the recorded run started on a recoverable root
+}
+
+type recoverRec struct {
+	seq uint64 // global sequence number when it started
+	k   uint64 // target state id
 }
 
 // journalRec describes one journal the recorded run wrote.
@@ -207,8 +213,15 @@ func (rn *runner) beginMut(pre map[common.Hash]bool) uint64 {
 			rn.lives[r] = append(rn.lives[r], &life{addStart: t0})
 		}
 	}
-	for _, c := range rn.m.canon {
+	for id, c := range rn.m.canon {
 		rn.everCanon[c.root] = true
+		if rn.pairs[uint64(id)] == nil {
+			rn.pairs[uint64(id)] = map[common.Hash]bool{}
+		}
+		rn.pairs[uint64(id)][c.root] = true
+	}
+	if n := uint64(len(rn.m.canon) - 1); n > rn.maxIDEver {
+		rn.maxIDEver = n
 	}
 	return t0
 }
@@ -351,6 +364,9 @@ func (rn *runner) update(pst, child *state) *simcore.Violation {
 	rn.mu.Lock()
 	pre := liveSet(rn.m)
 	outcome, flat := rn.m.update(child.root, pst.root)
+	if outcome == updAdded {
+		rn.parentOf[child.root] = pst.root
+	}
 	t0 := rn.beginMut(pre)
 	rn.block++
 	block := rn.block
